@@ -64,10 +64,103 @@ fn coincidence_case(rng: &mut Rng) -> (NodeSpec, Size<AvailableSpace>, bool) {
     (NodeSpec { style: root, ctx: None, children }, Size::MAX_CONTENT, rng.chance(1, 2))
 }
 
+/// Structured family around auto-repeat tracks and content distribution (random templates rarely combine them with sparse
+/// occupancy): a grid with `repeat(auto-fit | auto-fill, fixed)` on one or both axes, a definite size that fits 2..6 repetitions
+/// with free space left over, every `justify-content` / `align-content` value, and only a few items pinned to lines so that
+/// auto-fit tracks collapse -- a lone item in a track that is not the first, no in-flow item at all with an absolute child
+/// anchored between lines, occupied first and last track only.  The divisions by (number of tracks - 1) and by the number of
+/// tracks in the distributed-alignment offsets, and the fallback alignments that guard them, are exercised with 0, 1 and 2
+/// non-collapsed tracks.
+fn autorepeat_case(rng: &mut Rng) -> (NodeSpec, Size<AvailableSpace>, bool) {
+    let contents = [
+        None,
+        Some(AlignContent::Start),
+        Some(AlignContent::End),
+        Some(AlignContent::FlexStart),
+        Some(AlignContent::FlexEnd),
+        Some(AlignContent::Center),
+        Some(AlignContent::Stretch),
+        Some(AlignContent::SpaceBetween),
+        Some(AlignContent::SpaceEvenly),
+        Some(AlignContent::SpaceAround),
+    ];
+    let track = *rng.pick(&[10.0f32, 20.0, 25.0, 40.0]);
+    let reps = 2 + rng.below(5) as usize;
+    let gap = *rng.pick(&[0.0f32, 0.0, 5.0, 10.0]);
+    let slack = *rng.pick(&[0.0f32, 5.0, 13.0, 30.0]);
+    let extent = track * reps as f32 + gap * (reps as f32 - 1.0) + slack.min(track - 1.0);
+    let both = rng.chance(1, 3);
+    let cols = both || rng.chance(1, 2);
+    let rows = both || !cols;
+    let kind = |rng: &mut Rng| if rng.chance(3, 4) { GridTrackRepetition::AutoFit } else { GridTrackRepetition::AutoFill };
+    let mut root = Style { display: Display::Grid, ..Default::default() };
+    if cols {
+        root.grid_template_columns = vec![TrackSizingFunction::Repeat(kind(rng), vec![length(track)])];
+        root.size.width = length(extent);
+        root.justify_content = *rng.pick(&contents);
+        root.gap.width = length(gap);
+    }
+    if rows {
+        root.grid_template_rows = vec![TrackSizingFunction::Repeat(kind(rng), vec![length(track)])];
+        root.size.height = length(extent);
+        root.align_content = *rng.pick(&contents);
+        root.gap.height = length(gap);
+    }
+    if rng.chance(1, 4) {
+        root.grid_auto_flow = *rng.pick(&[GridAutoFlow::Column, GridAutoFlow::RowDense, GridAutoFlow::ColumnDense]);
+    }
+    // occupancy pattern: which lines carry an item
+    let pattern = rng.below(6);
+    let lines: Vec<i16> = match pattern {
+        0 => vec![],                                                         // nothing in flow
+        1 => vec![2 + rng.below(reps as u64 - 1) as i16],                   // a lone item, not in the first track
+        2 => vec![1, reps as i16],                                          // first and last track only
+        3 => vec![reps as i16],                                             // last track only
+        4 => vec![1],                                                       // first track only
+        _ => (0..1 + rng.below(3)).map(|_| 1 + rng.below(reps as u64) as i16).collect(),
+    };
+    let mut children = vec![];
+    for l in &lines {
+        let mut s = Style { size: Size { width: length(5.0), height: length(5.0) }, ..Default::default() };
+        if cols {
+            s.grid_column = Line { start: line(*l), end: GridPlacement::Auto };
+        }
+        if rows {
+            s.grid_row = Line { start: line(*l), end: GridPlacement::Auto };
+        }
+        children.push(NodeSpec::leaf(s));
+    }
+    // an absolute child anchored between two lines (its containing block is made of track offsets), sometimes a hidden one
+    if pattern == 0 || rng.chance(1, 3) {
+        let a = 1 + rng.below(reps as u64) as i16;
+        let b = a + 1 + rng.below(2) as i16;
+        let mut s = Style { position: Position::Absolute, ..Default::default() };
+        if rng.chance(1, 2) {
+            s.inset = Rect { left: length(1.0), right: length(1.0), top: length(1.0), bottom: length(1.0) };
+        } else {
+            s.size = Size { width: length(4.0), height: length(4.0) };
+        }
+        if cols {
+            s.grid_column = Line { start: line(a), end: if rng.chance(1, 2) { line(b) } else { GridPlacement::Auto } };
+        }
+        if rows {
+            s.grid_row = Line { start: line(a), end: if rng.chance(1, 2) { line(b) } else { GridPlacement::Auto } };
+        }
+        children.push(NodeSpec::leaf(s));
+    }
+    if rng.chance(1, 6) {
+        children.push(NodeSpec::leaf(Style { display: Display::None, grid_column: Line { start: line(2), end: GridPlacement::Auto }, ..Default::default() }));
+    }
+    (NodeSpec { style: root, ctx: None, children }, Size::MAX_CONTENT, rng.chance(1, 2))
+}
+
 pub fn case(seed: u64, idx: u64) -> (NodeSpec, Size<AvailableSpace>, bool) {
     let mut rng = Rng::new(seed.wrapping_mul(0x9E37_79B9).wrapping_add(idx));
     if idx % 10 == 7 {
         return coincidence_case(&mut rng);
+    }
+    if idx % 10 == 3 {
+        return autorepeat_case(&mut rng);
     }
     let mut cfg = cfg_for(0);
     // a third of the cases concentrate on grids with line placements
